@@ -4,6 +4,7 @@ import (
 	"bytes"
 	"context"
 	"fmt"
+	"sync"
 	"testing"
 	"testing/synctest"
 	"time"
@@ -31,6 +32,10 @@ type c15cOp struct {
 
 type c15cCase struct {
 	Ops []c15cOp `json:"ops"`
+	// Concurrent: the calls are issued by as many goroutines at once (compression happens in the senders,
+	// before they take their turn on the connection), the connection yields after each write
+	Concurrent bool `json:"concurrent,omitempty"`
+	Yields     int  `json:"yields,omitempty"`
 }
 
 func c15cValue(op c15cOp, i int) []byte {
@@ -78,7 +83,7 @@ func c15cRun(c c15cCase) Outcome {
 }
 
 func c15cInBubble(c c15cCase) (out Outcome) {
-	env, err := newRCEnv(1, 0, time.Hour, true, memconn.Options{})
+	env, err := newRCEnv(1, 0, time.Hour, true, memconn.Options{YieldAfterWrite: c.Yields})
 	if err != nil {
 		return viol("harness", "dial: %v", err)
 	}
@@ -159,49 +164,83 @@ func c15cInBubble(c c15cCase) (out Outcome) {
 		res *hrpc.Result
 	}
 	var keep []kept
+	var keepMu sync.Mutex
 	gets, puts := 0, 0
+	calls := make([]hrpc.Call, len(c.Ops))
 	for i, op := range c.Ops {
 		row := []byte(fmt.Sprintf("row-%d", i))
-		var call hrpc.Call
 		if op.Kind == "get" {
-			call, _ = hrpc.NewGet(context.Background(), []byte("t"), row, hrpc.SkipBatch())
+			calls[i], _ = hrpc.NewGet(context.Background(), []byte("t"), row, hrpc.SkipBatch())
 			gets++
 		} else {
 			vals := map[string]map[string][]byte{"f": {}}
 			for k, ce := range c15cCells(i, op) {
 				vals["f"][fmt.Sprintf("q%d", k)] = ce.Value
 			}
-			call, _ = hrpc.NewPut(context.Background(), []byte("t"), row, vals, hrpc.SkipBatch(), hrpc.Timestamp(time.UnixMilli(1000)))
+			calls[i], _ = hrpc.NewPut(context.Background(), []byte("t"), row, vals, hrpc.SkipBatch(), hrpc.Timestamp(time.UnixMilli(1000)))
 			puts++
 		}
-		call.SetRegion(env.reg)
-		env.rc.QueueRPC(call)
-		synctest.Wait()
+		calls[i].SetRegion(env.reg)
+	}
+	// collect takes the result of call i (already answered) and checks it
+	collect := func(i int) *Outcome {
+		op, call := c.Ops[i], calls[i]
 		var r hrpc.RPCResult
 		select {
 		case r = <-call.ResultChan():
 		default:
 			select {
 			case m := <-srvErr:
-				return viol("client-stream-wrong-data", "%s", m)
+				return violp("client-stream-wrong-data", "%s", m)
 			default:
 			}
-			return viol("no-answer", "call %d (%s) got no result", i, op.Kind)
+			return violp("no-answer", "call %d (%s) got no result", i, op.Kind)
 		}
 		if r.Error != nil {
 			select {
 			case m := <-srvErr:
-				return viol("client-stream-wrong-data", "%s", m)
+				return violp("client-stream-wrong-data", "%s", m)
 			default:
 			}
-			return viol("sound-stream-rejected", "call %d (%s, %d cells of %d bytes, %d blocks, chunk %d) failed: %v", i, op.Kind, op.Cells, op.ValueLen, op.Blocks, op.Chunk, r.Error)
+			return violp("sound-stream-rejected", "call %d (%s, %d cells of %d bytes, %d blocks, chunk %d) failed: %v", i, op.Kind, op.Cells, op.ValueLen, op.Blocks, op.Chunk, r.Error)
 		}
 		if op.Kind == "get" {
 			res := hrpc.ToLocalResult(r.Msg.(*pb.GetResponse).Result)
 			if err := c15cSame(res.Cells, c15cCells(i, op)); err != nil {
-				return viol("roundtrip-wrong-data", "get %d: %v", i, err)
+				return violp("roundtrip-wrong-data", "get %d: %v", i, err)
 			}
+			keepMu.Lock()
 			keep = append(keep, kept{i, res})
+			keepMu.Unlock()
+		}
+		return nil
+	}
+	if c.Concurrent {
+		var wg sync.WaitGroup
+		start := make(chan struct{})
+		for i := range calls {
+			wg.Add(1)
+			go func(i int) {
+				defer wg.Done()
+				<-start
+				env.rc.QueueRPC(calls[i])
+			}(i)
+		}
+		close(start)
+		wg.Wait()
+		synctest.Wait()
+		for i := range calls {
+			if o := collect(i); o != nil {
+				return *o
+			}
+		}
+	} else {
+		for i := range calls {
+			env.rc.QueueRPC(calls[i])
+			synctest.Wait()
+			if o := collect(i); o != nil {
+				return *o
+			}
 		}
 	}
 	select {
@@ -218,6 +257,9 @@ func c15cInBubble(c c15cCase) (out Outcome) {
 	out.NonTrivial = gets >= 2 || gets >= 1 && puts >= 1
 	if puts > 0 && gets > 0 {
 		out.Labels = append(out.Labels, "gets_and_puts_interleaved")
+	}
+	if c.Concurrent {
+		out.Labels = append(out.Labels, "concurrent_senders")
 	}
 	return out
 }
@@ -239,13 +281,23 @@ func c15cGen(t *rapid.T) c15cCase {
 		}
 		c.Ops = append(c.Ops, op)
 	}
+	if rapid.Bool().Draw(t, "concurrent") {
+		c.Concurrent = true
+		c.Yields = rapid.SampledFrom([]int{0, 1, 3}).Draw(t, "yields")
+		// (more puts: it is the senders that compress)
+		for i := range c.Ops {
+			if c.Ops[i].Kind == "get" && rapid.Bool().Draw(t, "toput") {
+				c.Ops[i].Kind, c.Ops[i].Cells, c.Ops[i].Blocks, c.Ops[i].Chunk = "put", 1, 0, 0
+			}
+		}
+	}
 	return c
 }
 
 func TestC15_ClientRoundTrip(t *testing.T) {
 	theT = t
 	rec := evid.New("C15", "TestC15_ClientRoundTrip",
-		"rapid, virtual time: 2..12 calls on ONE real region client with the snappy codec over an in-memory connection; the "+
+		"rapid, virtual time: 2..12 calls (one after the other, or - half of the cases - issued by as many goroutines at once over a connection that yields after writes) on ONE real region client with the snappy codec over an in-memory connection; the "+
 			"server side is the independent codec: gets are answered with 0..4 cells (values 0..250000 bytes, zero/text/random/"+
 			"mixed) as a Hadoop block stream cut into 1..3 blocks and arbitrary chunks, puts are decompressed and compared with "+
 			"the put's cells. Oracle: every get returns exactly the cells the server sent; every put's cellblock decompresses to "+
